@@ -22,6 +22,8 @@ KEY_POOLS = {
     "str": ["a", "b", "A", ""],
     "date": [V.D1, V.D2],
     "bool": [True, False],
+    # a cell may hold a tuple (a (year, quarter) pair): a legal hashable key like any other
+    "tuple": [V.TCell((2024, 1)), V.TCell((2024, 2)), V.TCell(()), V.TCell((1,)), V.TCell(("a", None))],
 }
 AGGS = ["sum", "mean", "min", "max", "count", "stdev"]
 APPLY = {"len": len, "first": lambda vs: vs[0] if vs else None, "nn": lambda vs: sum(1 for v in vs if v is not None),
@@ -33,7 +35,7 @@ CANCEL = [1e16, -1e16, 1.0, 0.5, 1e16, -1e16, 0.1]     # sums that only a carefu
 
 def gen_case(rng):
     nk = rng.choices([1, 2, 3], [6, 3, 1])[0]
-    kkinds = [rng.choice(list(KEY_POOLS)) for _ in range(nk)]
+    kkinds = [rng.choice(["int", "str", "date", "bool", "int", "str", "date", "bool", "tuple"]) for _ in range(nk)]
     pools = []
     for k in kkinds:
         p = list(KEY_POOLS[k])
@@ -63,7 +65,8 @@ def gen_case(rng):
         if len(apply) == 2 and rng.random() < 0.6:
             apply[1]["col"] = apply[0]["col"]       # two callbacks over one column
     meta = {"op": "case", "kkinds": kkinds, "knames": knames, "vnames": vnames, "vkinds": vkinds, "kspec": kspec,
-            "aggs": aggs, "apply": apply, "single": rng.random() < 0.5, "fn": "aggregate"}
+            "aggs": aggs, "apply": apply, "single": rng.random() < 0.5, "fn": "aggregate",
+            "over_form": rng.choice(["list", "list", "tuple", "gen"])}
     if apply and rng.random() < 0.4:
         meta["fault_at"] = rng.randint(0, 5)
     # some numeric columns sit on a large offset with a small spread (timestamps, ids): the
@@ -213,6 +216,10 @@ def evaluate(trace):
             ap[a["name"]] = (vobjs[a["col"]], f)
         kw["apply"] = ap
     ov = over[0] if (meta.get("single") and nk == 1) else over
+    if meta.get("over_form") == "gen" and isinstance(ov, list):
+        ov = (x for x in list(ov))          # a one-shot iterable of key specs
+    elif meta.get("over_form") == "tuple" and isinstance(ov, list):
+        ov = tuple(ov)
     snap0 = snap_any(t)
     # group by hand
     groups = {}
